@@ -1,5 +1,6 @@
 import GlyModel.Smiles.Sem
 import GlyProofs.Smiles.TreePerm
+import GlyProofs.Smiles.TreeRename
 import GlyProofs.Front.WalkDen
 /-
   C07 — The order in which branches are written is immaterial. (Property theorems only.)
@@ -22,6 +23,17 @@ theorem C07_children_order_immaterial (isMk : Atom → Bool) (hN : isMk ['N'] = 
     (kids kids' : List (Atom × Bool × TNode)) (hp : kids.Perm kids') (hwf : wfTree isMk (.mk toks kids) = true) :
     mergeTok (.mk toks kids') = mergeTok (.mk toks kids) :=
   mergeTok_perm isMk hN toks kids kids' hp hwf
+
+/-- **Which marker element stands for which child is immaterial**: writing the branches of a residue in another order gives the
+    k-th *written* child the k-th marker pair, i.e. it permutes the children (`C07_children_order_immaterial`) *and* renames their
+    markers. For a well-formed residue, renaming the markers in its string and in its child list by an injective map that fixes
+    every non-marker atom leaves the assembled string unchanged. (That RDKit writes the marked residue with the same string up to
+    the marker names is the boundary hypothesis, checked as molecules on every sampled permutation.) -/
+theorem C07_marker_names_immaterial (isMk : Atom → Bool) (hN : isMk ['N'] = false) (ρ : Atom → Atom)
+    (hinj : ∀ a b, ρ a = ρ b → a = b) (hfix : ∀ a, isMk a = false → ρ a = a)
+    (toks : List Tok) (kids : List (Atom × Bool × TNode)) (hwf : wfTree isMk (.mk toks kids) = true) :
+    mergeTok (.mk (toks.map (mapTok ρ)) (kids.map fun kid => (ρ kid.1, kid.2.1, kid.2.2))) = mergeTok (.mk toks kids) :=
+  mergeTok_rename isMk hN ρ hinj hfix toks kids hwf
 
 /-- The walker hangs bracketed branches and the main chain on the same parent, children in written order (C03). -/
 theorem C07_walk_children_order (w : WalkCfg) (s : Start) : walkStart w s = denStart w s := walkStart_eq_denStart w s
